@@ -145,13 +145,13 @@ def worker(task, col):
     M.Tap(mx.AggregateAssignmentMatrixGenerator, 'get_agg_matrix', counter=col.count)
     col.count('mode_' + task.get('mode', 'jit'))
     if task.get('replay'):
-        check_settings(task['replay']['violation']['spec'], col, 'replay')
+        common.guard(col, check_settings, task['replay']['violation']['spec'], col, 'replay')
         return
     if task.get('kind') == 'exhaustive':
         stride, offset = task['stride'], task['offset']
         for i, cs in enumerate(exhaustive_settings()):
             if i % stride == offset:
-                check_settings(cs, col, 'exhaustive')
+                common.guard(col, check_settings, cs, col, 'exhaustive')
         return
     for i in range(task['lo'], task['hi']):
         rnd = gen.rng_for('C09', task['seed'], i)
@@ -162,7 +162,7 @@ def worker(task, col):
             cs = gen.gen_settings(rnd, n_src=(2, 3), n_tgt=(2, 3), p_override=.5, p_patterns=.8)
         else:
             cs = gen.gen_settings(rnd, n_src=(1, 2), n_tgt=(1, 2), p_override=.7, p_patterns=1., p_parallel=.4)
-        check_settings(cs, col, 'random')
+        common.guard(col, check_settings, cs, col, 'random')
 
 
 def main(run):
